@@ -2,7 +2,10 @@ package rules
 
 import (
 	"fmt"
+	"go/token"
 	"go/types"
+	"saoverif/internal/prog"
+	"sort"
 	"strings"
 
 	"golang.org/x/tools/go/ssa"
@@ -228,6 +231,7 @@ func checkC05(r *core.Run) {
 	r.Rule("CAP-reserve: {Store, Ready, timeout handler} have no write on node:Pledge/value/ and no bank inflow into the node module")
 	r.Rule("T-sched-meta: RemoveMetadata(d) is accompanied by removeDataExpireBlock(d, ...) unless every caller is the schedule consumer (model end-blocker)")
 	r.Rule("T-rollback: RollbackMeta restores OrderId from the last element of the model's own Orders list and Commit from the last element of its own Commits list (index len(same list)-1); status back to complete")
+	r.Rule("T-rollback-fields: every field of the stored data-model record that UpdateMetaStatusAndCommit (the step that marks a model in flight for an update order) overwrites is assigned again by RollbackMeta — a field the forward step changes and the rollback never touches keeps the value of the order that was never stored")
 	r.Rule("T-unschedule: removeDataExpireBlock writes back, when other ids remain at that height, a list collected only from ids tested unequal to the one being dropped (the rollback of a cancelled order leaves no expiry entry behind)")
 	ruleUnschedule(r, "T-unschedule")
 	r.Assume(aDeps)
@@ -241,6 +245,9 @@ func checkC05(r *core.Run) {
 	evalStoreVal(r, "T-rollback", rb, "model/types.Metadata.OrderId", []string{"*.Orders[last]"}, "the previously committed version's order is the last entry of the model's Orders list (Orders and Commits are not parallel: a renewal appends an order without a commit)")
 	evalStoreVal(r, "T-rollback", rb, "model/types.Metadata.Commit", []string{"*.Commits[last]*"}, "the previously committed version is the last entry of the model's Commits list")
 	evalStoreVal(r, "T-rollback", rb, "model/types.Metadata.Status", []string{constVal(r, "model/types", "MetaComplete")}, "a rolled-back model is complete again (not left locked in progress)")
+
+	// ---- T-rollback-fields: what the in-flight marker overwrites, the rollback restores
+	ruleRollbackFields(r, "T-rollback-fields", "model/keeper.Keeper.UpdateMetaStatusAndCommit", rb, "model/types.Metadata")
 
 	// ---- T-cancel
 	co := "model/keeper.Keeper.CancelOrder"
@@ -728,4 +735,116 @@ func rulePriceDuration(r *core.Run, fnNames ...string) {
 		}
 	}
 	r.Floor("priced_order_records", n, 1)
+}
+
+// storedFields: the fields of record type typ (short name) that fn, or a helper in one of its frames, assigns.
+func storedFields(r *core.Run, fn *ssa.Function, typ string) map[string]token.Pos {
+	out := map[string]token.Pos{}
+	seen := map[*ssa.Function]bool{}
+	var fns []*ssa.Function
+	var visit func(f *ssa.Function, d int)
+	visit = func(f *ssa.Function, d int) {
+		if f == nil || seen[f] || len(f.Blocks) == 0 || d > 3 {
+			return
+		}
+		seen[f] = true
+		fns = append(fns, f)
+		// module functions that are handed a pointer to the record assign its fields on the caller's behalf
+		for _, b := range f.Blocks {
+			for _, ins := range b.Instrs {
+				c, ok := ins.(*ssa.Call)
+				if !ok {
+					continue
+				}
+				h := c.Call.StaticCallee()
+				if h == nil || h.Pkg == nil || !prog.InModule(h.Pkg.Pkg.Path()) {
+					continue
+				}
+				for _, a := range c.Call.Args {
+					if pt, isPtr := a.Type().Underlying().(*types.Pointer); isPtr && shortTypeName(pt.Elem()) == typ {
+						visit(h, d+1)
+					}
+				}
+			}
+		}
+	}
+	for _, fr := range frames(r, fn) {
+		visit(fr.Fn, 0)
+	}
+	for _, f := range fns {
+		for _, b := range f.Blocks {
+			for _, ins := range b.Instrs {
+				st, ok := ins.(*ssa.Store)
+				if !ok {
+					continue
+				}
+				fa, ok := st.Addr.(*ssa.FieldAddr)
+				if !ok || shortTypeName(fa.X.Type()) != typ {
+					continue
+				}
+				f := fieldNameT(fa.X.Type(), fa.Field)
+				if _, seen := out[f]; !seen {
+					out[f] = st.Pos()
+				}
+			}
+		}
+	}
+	return out
+}
+
+// ruleRollbackFields: fields(forward writes) ⊆ fields(rollback writes) for the record type typ.
+func ruleRollbackFields(r *core.Run, id, fwdName, backName, typ string) {
+	fwd := r.Func(id, fwdName)
+	back := r.Func(id, backName)
+	if fwd == nil || back == nil {
+		return
+	}
+	fw := storedFields(r, fwd, typ)
+	bk := storedFields(r, back, typ)
+	if len(fw) == 0 || len(bk) == 0 {
+		r.Undecide(id, core.Key(id, fwdName, "sites"), r.P.FuncPos(fwd), "vacuous: no field store on "+typ+" found in "+fwdName+" or "+backName)
+		return
+	}
+	var names []string
+	for f := range fw {
+		names = append(names, f)
+	}
+	sort.Strings(names)
+	for _, f := range names {
+		key := core.Key(id, fwdName, typ+"."+f, "restored by "+backName)
+		if _, ok := bk[f]; ok {
+			r.Discharge(id, key, r.P.Pos(fw[f]), "overwritten while the update is in flight, assigned again by the rollback")
+		} else {
+			r.Violate(id, key, r.P.Pos(fw[f]), fmt.Sprintf("%s overwrites %s.%s of the stored data model while an update order is in flight, but %s never assigns that field: after a cancel or a timeout the model keeps the value of the order that was never stored instead of returning to its committed version", fwdName, typ, f, backName))
+		}
+	}
+}
+
+
+// ruleRetainCompleted (G-retain, C11): model.CancelOrder — which removes the order and rolls the data model back or
+// deletes it — is reached only while the order is not Completed, i.e. before any shard of it was completed for a
+// paid duration. The same guard as G-refund-state (C05), stated for retention.
+func ruleRetainCompleted(r *core.Run, id string) {
+	co := "model/keeper.Keeper.CancelOrder"
+	pending := constVal(r, "order/types", "OrderPending")
+	completed := constVal(r, "order/types", "OrderCompleted")
+	n := 0
+	perAnchor := map[*ssa.Function]int{}
+	anchorFrames(r, func(f *ssa.Function, fr frame) {
+		for _, c := range callsIn(r, fr.Fn, co) {
+			n++
+			perAnchor[f]++
+			key := core.Key(id, r.P.Name(f), fmt.Sprintf("CancelOrder#%d", perAnchor[f]), "order not completed")
+			site := effSite{Ins: c, Chain: fr.Chain}
+			ordStatus := "*" + fGetOrder + "(*)#0.Status"
+			if ok, w := mustPassDeep(r, f, site, []guard.Atom{guard.Ne(ordStatus, completed), guard.Eq(ordStatus, pending)}); ok {
+				r.Discharge(id, key, r.P.Pos(c.Pos()), "the order (and its model version) is dropped only while the order is not Completed: no shard of it has been completed for a paid term")
+			} else {
+				r.Violate(id, key, r.P.Pos(c.Pos()), "CancelOrder (removes the order and rolls back / deletes the data model) can be reached for an order that is already Completed: shards completed for a paid, unexpired term lose their order and model before their expiry height", w...)
+			}
+		}
+	})
+	if n == 0 {
+		r.Undecide(id, core.Key(id, co, "sites"), "-", "vacuous: no call site of model.CancelOrder found")
+	}
 }
